@@ -278,7 +278,7 @@ def run(ctx):
         # (e) pre-creation: lookupds failing over HTTP; which lookupds are asked at all (identified / not, connected /
         # not: audit C26, seeded C16-m8); hostile channel names (audit C8)
         for test, label, tmo in (("TestVerifE6Precreate", "precreate", 120), ("TestVerifE6PrecreateWindows", "prewin", 120),
-                                 ("TestVerifE6PrecreateBadNames", "prebad", 120)):
+                                 ("TestVerifE6PrecreateBadNames", "prebad", 120), ("TestVerifE6PrecreateFlood", "preflood", 120)):
             rc, out, od = run_stream(ctx, binp, test, label, {}, tmo)
             oracle_lines(ctx, out, label)
             res = diff_stream(ctx, od, label, label)
